@@ -97,7 +97,7 @@ def gChallengeInt : G Int := do
 
 /-- semantic damage: states outside the specification's domain (tagged NOTWF) -/
 def gDamage (cfg : Config) (st : State) : G (Config × State) := do
-  let c ← G.below 9
+  let c ← G.below 11
   match c with
   | 0 => pure (cfg, { st with vars := st.vars.drop 1 })
   | 1 => pure (cfg, { st with vars := st.vars.map fun p => if p.1 == asciiBytes "maxplayers" then (p.1, asciiBytes "x1") else p })
@@ -107,10 +107,14 @@ def gDamage (cfg : Config) (st : State) : G (Config × State) := do
   | 5 => pure (cfg, { st with vars := st.vars ++ [(asciiBytes "password", asciiBytes "maybe")] })
   | 6 => pure ({ cfg with layout := cfg.layout.map fun ss => ss.map fun sl => { sl with offset := sl.offset + 1 } }, st)
   | 7 => pure ({ cfg with challenge := 2147483648 }, st)
+  -- sections that end exactly at / run past the last row number a byte can address (255)
+  | 8 => pure ({ cfg with layout := cfg.layout.map fun ss => ss.map fun sl => { sl with offset := 256 - sl.count } }, st)
+  | 9 => pure ({ cfg with layout := cfg.layout.map fun ss => ss.map fun sl => { sl with offset := 255 } }, st)
   | _ => pure ({ cfg with layout := cfg.layout ++ [[]] }, st)
 
 def gGs3Case : G (Config × State) := do
-  let np ← G.oneOf [0, 1, 2, 3, 5, 12, 33, 64]
+  -- 255 / 256 rows: the largest tables a one-byte row offset can address (sections then end at row 255)
+  let np ← G.oneOf [0, 1, 1, 2, 3, 5, 5, 12, 12, 33, 64, 64, 255, 256]
   let nt ← G.oneOf [0, 0, 1, 2, 3, 8]
   let players ← G.listOf np gGs3Player
   let teams ← G.listOf nt gGs3Team
